@@ -21,6 +21,7 @@ func ruleLatencyReport(r *Run) {
 	}
 	// Start binds the state from its parameters and issues the first ping
 	for _, path := range r.Paths(start) {
+		r.at(&path)
 		got := map[string]string{}
 		pings := 0
 		for _, ev := range path.Events {
@@ -45,6 +46,7 @@ func ruleLatencyReport(r *Run) {
 	r.Analysed(start, 1)
 	// sendPingRequest: the id entered into PingRequests is the id sent
 	for _, path := range r.Paths(sendPing) {
+		r.at(&path)
 		var entered, sent string
 		for _, op := range r.mapOps(sendPing, &path) {
 			if op.Kind == "write" && op.Map == "recv.PingRequests" {
@@ -72,6 +74,7 @@ func ruleLatencyReport(r *Run) {
 	entry := "recv.PingRequests[param:#0]"
 	for pi := range paths {
 		path := &paths[pi]
+		r.at(path)
 		g := r.guardMap(path)
 		ret := r.retCanon(on, path)
 		isErr := len(ret) == 1 && ret[0] != "nil"
@@ -111,8 +114,12 @@ func ruleLatencyReport(r *Run) {
 		pings := 0
 		for _, ev := range path.Events {
 			if r.isSendCall(ev) {
+				ml := r.sendMsg(ev)
+				if ml != nil && ml.TypeConstName() == "MSG_TYPE_PING_REQUEST" {
+					continue // the ping sent by sendPingRequest (seen when the helper is looked into)
+				}
 				sends++
-				final = r.sendMsg(ev)
+				final = ml
 			}
 			if ev.Kind == EvCall && ev.Callee == sendPing.Obj {
 				pings++
@@ -268,6 +275,7 @@ func ruleMapOrderFree(r *Run) {
 		r.Analysed(fn, len(paths))
 		for pi := range paths {
 			path := &paths[pi]
+			r.at(path)
 			filled := map[types.Object]bool{}
 			for _, ev := range path.Events {
 				// appends inside a map range mark; sort clears; positional reads are checked
